@@ -110,11 +110,19 @@ class Oracle(object):
 
         # ------------------------------------------------ messages and skips of this step, in the order they happened
         first = True
+        task_sent = False
         for e in ev:
             if e[0] == 1:
                 justified = False
                 if first and task_exp:
-                    justified = self.task_send(task_exp, e, pools, pre_exc, pre_cl, op)
+                    justified = task_sent = self.task_send(task_exp, e, pools, pre_exc, pre_cl, op)
+                elif task_sent:
+                    # the executor task's own message went out; the task must not ALSO walk the plan
+                    kind = task_exp['kind']
+                    self.flag({'retry': 'retry.extra_message', 'reprepare': 'reprepare.extra_message'}.get(kind, 'resend.extra_message'),
+                              'the %s task sent its message to host %d and then a second message %r in the same step (%r)' % (
+                                  kind, task_exp['host'], e, op),
+                              {'C16': 'C16_obeys_retry', 'C17': 'C17_other_sends_are_tasks'}.get(self.which, 'C19_reprepare'))
                 first = False
                 if not justified:
                     self.plan_send(e, pools, st, op, task_exp, pre_cl)
